@@ -61,13 +61,21 @@ def set_state(ns, obj, fields, values):
             v = values[f["name"]]
             if f["kind"] == "enum":
                 v = enum_value(ns, f, v)
-            setattr(obj, f["name"], v)
+            if "[" in f["name"]:
+                lname, idx = f["name"][:-1].split("[")
+                getattr(obj, lname)[int(idx)] = v
+            else:
+                setattr(obj, f["name"], v)
 
 
 def read_state(ns, obj, fields):
     env = {}
     for f in fields:
-        v = getattr(obj, f["name"])
+        if "[" in f["name"]:
+            lname, idx = f["name"][:-1].split("[")
+            v = getattr(obj, lname)[int(idx)]
+        else:
+            v = getattr(obj, f["name"])
         if f["kind"] == "enum":
             v = enum_internal(ns, f, v)
         else:
